@@ -599,7 +599,7 @@ func runControlled(class string, p0 program, script []int, r *hv.Rand) {
 	hv.Emit(hv.Case{Fn: "c17s_ok", Coq: hv.Tuple(hv.Ni(p.cap), p.coqProgs(), hv.List(ev), hv.List(obs), hv.List(bl)),
 		Class: class, Desc: desc, Spec: v.ok, Sig: v.sig, What: v.what, NT: switches >= 2,
 		Key:    p.String() + "|" + strings.Join(ss, ","),
-		Replay: map[string]interface{}{"program": p.String(), "schedule": sched, "results": descRes}})
+		Replay: map[string]interface{}{"program": p.String(), "schedule": sched, "steps(thread@yield-point)": stepList(steps), "results": descRes}})
 }
 
 // ---------------------------------------------------------------- free runs
@@ -775,4 +775,76 @@ func parseScript(s string) []int {
 		}
 	}
 	return out
+}
+
+func stepList(steps []stepRec) []string {
+	out := make([]string, 0, len(steps))
+	for _, s := range steps {
+		w := ""
+		if s.woken {
+			w = "(woken)"
+		}
+		out = append(out, fmt.Sprintf("T%d@%s%s", s.th, s.from, w))
+	}
+	return out
+}
+
+// ---------------------------------------------------------------- schedule exploration of small programs
+// Every 3-call program (one call per goroutine) over {Recv, Send, SetDeadline(zero|past|late), Cancel,
+// Close}: the interleavings of the goroutines' yield points are sampled with the hooks as gates
+// (seeded PRNG); programs in which a Close and a deadline change race with a blocking call get the
+// most schedules.  Each run has the controller's watchdog; the replay is the schedule itself.
+func exploreSmall(r *hv.Rand) {
+	kinds := []qop{{k: kRecv}, {k: kSend}, {k: kSetDl, dl: 0}, {k: kSetDl, dl: 1}, {k: kSetDl, dl: 3}, {k: kCancel, v: 3}, {k: kClose}}
+	name := func(o qop) int {
+		for i, k := range kinds {
+			if k.k == o.k && k.dl == o.dl {
+				return i
+			}
+		}
+		return -1
+	}
+	for a := 0; a < len(kinds); a++ {
+		for b := a; b < len(kinds); b++ {
+			for c := b; c < len(kinds); c++ {
+				ops := []qop{kinds[a], kinds[b], kinds[c]}
+				hasClose, hasDl, hasBlock := false, false, false
+				next := uint64(1)
+				for i := range ops {
+					switch ops[i].k {
+					case kClose:
+						hasClose = true
+					case kSetDl, kCancel:
+						hasDl = true
+					case kRecv:
+						hasBlock = true
+					case kSend:
+						hasBlock = true
+						ops[i].v = next
+						next++
+					}
+					ops[i].ret = -1
+				}
+				_ = name
+				n := hv.Scale(2, 40)
+				switch {
+				case hasClose && hasDl && hasBlock:
+					n = hv.Scale(80, 3000)
+				case hasClose && hasBlock:
+					n = hv.Scale(12, 400)
+				case hasClose || (hasDl && hasBlock):
+					n = hv.Scale(5, 150)
+				}
+				for _, cp := range []int{1, 2} {
+					if cp == 2 && !(hasClose && hasDl && hasBlock) {
+						continue
+					}
+					p := program{cap: cp, progs: [][]qop{{ops[0]}, {ops[1]}, {ops[2]}}}
+					for k := 0; k < n/cp; k++ {
+						runControlled("explore-3op", p, nil, r)
+					}
+				}
+			}
+		}
+	}
 }
